@@ -748,7 +748,7 @@ static void cmd_valenum (int argc, char **argv)
 #define MAX_FDS 64
 static BusContext *bus;
 static char bus_sock_path[256];
-static struct { int fd; int open; } clients[MAX_CLIENTS];
+static struct { int fd; int open; int nodrain; } clients[MAX_CLIENTS];
 static int nclients;
 static int fdtab[MAX_FDS]; static int nfdtab;
 static long long vclock_us = 1000000LL * 1000000LL;   /* virtual time, microseconds */
@@ -828,7 +828,7 @@ static int raw_connect (unsigned long uid)
   if (uid != 0 && seteuid ((uid_t) uid) != 0) { close (fd); return -1; }
   if (connect (fd, (struct sockaddr *) &sa, sizeof sa) < 0) { int e = errno; if (uid != 0) { if (seteuid (0)) _exit (4); } close (fd); errno = e; return -1; }
   if (uid != 0 && seteuid (0) != 0) _exit (4);
-  clients[nclients].fd = fd; clients[nclients].open = 1;
+  clients[nclients].fd = fd; clients[nclients].open = 1; clients[nclients].nodrain = 0;
   return nclients++;
 }
 
@@ -954,7 +954,7 @@ static void drain_client (int c, OutBuf *o)
 
 static void drain_all (OutBuf *o)
 {
-  int c; for (c = 0; c < nclients; c++) drain_client (c, o);
+  int c; for (c = 0; c < nclients; c++) if (!clients[c].nodrain) drain_client (c, o);
 }
 
 /* SEND <c> <hex> [fdlist]  -> "OK <written>" */
@@ -1131,6 +1131,13 @@ int main (int argc, char **argv)
       else if (!strcmp (args[0], "DUMP")) cmd_dump ();
       else if (!strcmp (args[0], "MKFD")) cmd_mkfd (n, args);
       else if (!strcmp (args[0], "SOCKBUF")) cmd_sockbuf (n, args);
+      else if (!strcmp (args[0], "NODRAIN"))
+        {
+          /* NODRAIN <c> <0|1> : a stalled client is not read by STEP/RECVALL/... until un-stalled */
+          int c = n > 1 ? atoi (args[1]) : -1;
+          if (c < 0 || c >= nclients) ob_puts (&out, "ERR badclient");
+          else { clients[c].nodrain = n > 2 && atoi (args[2]); ob_puts (&out, "OK"); }
+        }
       else if (!strcmp (args[0], "FDCOUNT")) ob_printf (&out, "OK %d", count_open_fds ());
       else if (!strcmp (args[0], "BLOCKS")) ob_printf (&out, "OK %d", _dbus_get_malloc_blocks_outstanding ());
       else if (!strcmp (args[0], "FAILALLOC"))
